@@ -438,3 +438,4 @@ MANIFEST = {
             "validate_vector_data does not test ndim == 2; __setitem__'s single-cell arm does not check index arity.",
     "technique": "CFG dominance of guards + reachability (failure atomicity) + sibling/traversal shape agreement (AST)",
 }
+MANIFEST["text"] += " Also: in slicing/fancy selection the stored value is the source cell reached by walking self._data (provenance), never an element of an accessor's return value (R8)."
